@@ -83,9 +83,11 @@ mainLoop:
 			//  because ListWithCursor works only with the metabase.
 			lst, cursor, err := sh.ListWithCursor(defaultEvacuateBatchSize, c)
 			if err != nil {
-				if errors.Is(err, meta.ErrEndOfListing) || errors.Is(err, shard.ErrDegradedMode) {
+				if errors.Is(err, meta.ErrEndOfListing) {
 					continue mainLoop
 				}
+				// incl. degraded mode: objects of the shard can not be listed
+				// and must not be reported as evacuated
 				return count, err
 			}
 
